@@ -309,6 +309,19 @@ bool prop(Tape &t, Report &R) {
     if (!out.error.empty())
       return R.fail("on a circuit object placed before with its fixed cells elsewhere, then set to these contents with " + route + ": " + out.error + " " + s2.json());
   }
+  // a degenerate companion: rows completely covered by an obstruction and by multi-row cells
+  if (hw % 16 == 2) {
+    CircuitSpec cov = genCoveredCircuit(hw);
+    R.classify("shape:rows-fully-covered");
+    DetailedObserver ob4;
+    ob4.checkLegality = true;
+    TopLevelOutcome out = runTopLevel(cov, params, ob4, false);
+    if (out.discarded) {
+      R.classify("shape:rows-fully-covered(legalization infeasible)");
+      return true;
+    }
+    if (!out.error.empty()) return R.fail(out.error + " " + cov.json());
+  }
   return true;
 }
 
